@@ -232,6 +232,9 @@ func (o *Obligation) asserts() []*Node {
 }
 
 func (e *Exec) strAxiomsFor(as []*Node) *Node {
+	if e.fc != nil && e.fc.Strings {
+		return tTrue
+	}
 	present := map[string]bool{}
 	for _, c := range freeConsts(as) {
 		present[c.Op] = true
@@ -397,13 +400,13 @@ func cmdCheck(args []string) int {
 	}
 	fmt.Printf("govc: property=%s tier=%s obligations=%d discharged=%d covers=%d known-findings=%d violations=%d undecided=%d wall=%.1fs\n",
 		*prop, *tier, res.nObl, res.nDis, res.nCover, res.nKnown, res.nViol, len(res.undecided), res.wall)
+	for _, u := range res.undecided {
+		fmt.Println("UNDECIDED:", u)
+	}
 	if res.nViol > 0 {
 		return 1
 	}
 	if len(res.undecided) > 0 {
-		for _, u := range res.undecided {
-			fmt.Println("UNDECIDED:", u)
-		}
 		return 2
 	}
 	return 0
